@@ -238,6 +238,11 @@ func (c *Chain) Ctx() sdk.Context {
 	return c.App.BaseApp.NewContext(false, c.Header)
 }
 
+// CommittedCtx reads the last committed state (valid between Commit and the next BeginBlock).
+func (c *Chain) CommittedCtx() sdk.Context {
+	return c.App.BaseApp.NewUncachedContext(false, c.Header)
+}
+
 // CheckCtx is the check-state context.
 func (c *Chain) CheckCtx() sdk.Context {
 	return c.App.BaseApp.NewContext(true, c.Header)
